@@ -511,6 +511,8 @@ type hwFileC struct {
 	Preload bool          `json:"preload"`
 	Opts    []hwHV        `json:"opts"`
 	Entries []hwFileEntry `json:"entries"`
+	N       int           `json:"n"`      // re-used entries: instances (0: an ordinary file case)
+	Rounds  int           `json:"rounds"` // ... rounds of acquire-all-then-shoot-all
 }
 
 // hwRenderFile renders a multi-entry ammo file: uri/uripost put the header lines between the entries, raw/json give
@@ -540,7 +542,7 @@ func (e *hwEnv) hwRenderFile(c *hwFileC) (typ, file string) {
 			r.WriteString("\r\n")
 			r.WriteString(en.Body)
 			fmt.Fprintf(&b, "%d\n%s\n", r.Len(), r.String())
-		case "json":
+		case "json", "jsonarray":
 			m := map[string]interface{}{"method": "GET", "uri": en.URI}
 			hm := map[string]string{}
 			for _, h := range en.HL {
@@ -566,7 +568,136 @@ func (e *hwEnv) hwRenderFile(c *hwFileC) (typ, file string) {
 			panic("format " + c.Fmt)
 		}
 	}
+	if c.Fmt == "jsonarray" { // the same entries as ONE JSON array: the decoder keeps the decoded entries and cycles over them
+		lines := strings.Split(strings.TrimRight(b.String(), "\n"), "\n")
+		return "http/json", "[" + strings.Join(lines, ",\n") + "]\n"
+	}
 	return map[string]string{"uri": "uri", "uripost": "uripost", "raw": "raw", "json": "http/json"}[c.Fmt], b.String()
+}
+
+// runReuse: a SMALL file handed out again and again to n instances (own real gun each).  In every round all instances
+// first acquire their ammo and only then shoot, concurrently: a request is delivered while the same entry has already
+// been handed out again.  One line per request the target received (k = the entry its URI names) and one per shot
+// whose sample reports a failure.
+func (e *hwEnv) runReuse(cs hwCase) []hwOut {
+	var c hwFileC
+	if err := json.Unmarshal(cs.C, &c); err != nil {
+		panic(err)
+	}
+	yamlShape := cs.ID%2 == 1
+	via := fmt.Sprintf("%s instances=%d rounds=%d acquire-all-then-shoot-all", map[bool]string{false: "viper-map", true: "yaml-map"}[yamlShape], c.N, c.Rounds)
+	typ, file := e.hwRenderFile(&c)
+	path := fmt.Sprintf("/hw/r%d.ammo", cs.ID)
+	if err := afero.WriteFile(e.fs, path, []byte(file), 0o644); err != nil {
+		panic(err)
+	}
+	defer e.fs.Remove(path)
+	total := c.N * c.Rounds
+	pm := map[string]interface{}{"type": typ, "file": path, "limit": total} // passes unlimited: the file is read again and again
+	if c.Preload {
+		pm["preload"] = true
+		via += " preload"
+	}
+	blank := func(k int, msg string) hwOut {
+		return hwOut{ID: cs.ID, K: k, C: cs.C, Obs: hwObs{Hdr: []targets.Header{}, Connects: []hwConnect{}, Dates: []int{}}, Samples: []hwSample{}, Err: msg, File: file, Via: via, Acq: total}
+	}
+	prov, err := hwDecodeProvider(pm, yamlShape)
+	if err != nil {
+		return []hwOut{blank(1, "provider: "+err.Error())}
+	}
+	newGun, err := hwDecodeGunFactory(map[string]interface{}{"type": "http", "target": e.target(c.SSL).Addr(), "ssl": c.SSL}, yamlShape)
+	if err != nil {
+		return []hwOut{blank(1, "gun: "+err.Error())}
+	}
+	shared := &hwShared{}
+	guns := []core.Gun{}
+	aggs := []*hwAgg{}
+	for i := 0; i < c.N; i++ {
+		aggs = append(aggs, &hwAgg{inst: i})
+		g, gerr := hwNewGun(newGun, aggs[i], context.Background(), e.log, i, shared)
+		if gerr != nil {
+			return []hwOut{blank(1, "gun: "+gerr.Error())}
+		}
+		guns = append(guns, g)
+	}
+	e.rec.Drain()
+	stop := hwRunProvider(prov, e.log)
+	acq := 0
+	for r := 0; r < c.Rounds; r++ {
+		held := make([]core.Ammo, c.N)
+		for i := 0; i < c.N; i++ { // everybody acquires ...
+			a, ok := prov.Acquire()
+			if !ok {
+				break
+			}
+			acq++
+			held[i] = a
+		}
+		var wg sync.WaitGroup
+		for i := 0; i < c.N; i++ { // ... and only then everybody shoots, at the same time
+			if held[i] == nil {
+				continue
+			}
+			wg.Add(1)
+			go func(i int) {
+				defer wg.Done()
+				guns[i].Shoot(held[i])
+				prov.Release(held[i])
+			}(i)
+		}
+		wg.Wait()
+	}
+	runErr := ""
+	if err := stop(); err != nil {
+		runErr = "provider run: " + err.Error()
+	}
+	for _, g := range guns {
+		if cl, ok := g.(interface{ Close() error }); ok {
+			_ = cl.Close()
+		}
+	}
+	outs := []hwOut{}
+	e.gunTarget, e.dateLoc = "", nil
+	for _, ev := range e.rec.Drain() { // one line per request the target received
+		if ev.Ev != "Req" {
+			continue
+		}
+		k := 0
+		for j, en := range c.Entries {
+			if en.URI == ev.URI {
+				k = j + 1
+			}
+		}
+		o := blank(k, runErr)
+		if k == 0 {
+			o.K, o.Err = 1, "request for an unknown entry: "+ev.URI
+		}
+		o.Obs.N = 1
+		o.Obs.Server, o.Obs.TLS, o.Obs.Method, o.Obs.URI = ev.Server, ev.TLS, ev.Method, ev.URI
+		o.Obs.Host = e.projectHost(ev.Host, c.SSL)
+		o.Obs.Body = ev.Body
+		if ev.Hdr != nil {
+			o.Obs.Hdr = ev.Hdr
+		}
+		if len(ev.TE) > 0 {
+			o.Obs.Hdr = append(o.Obs.Hdr, targets.Header{N: "Transfer-Encoding", V: ev.TE})
+		}
+		outs = append(outs, o)
+	}
+	for _, a := range aggs { // ... and one per shot that did not end with a complete answer
+		for _, sm := range a.drain() {
+			if sm.Proto == 200 && sm.Net == 0 {
+				continue
+			}
+			o := blank(1, runErr)
+			o.Samples = []hwSample{sm}
+			outs = append(outs, o)
+		}
+	}
+	for i := range outs {
+		outs[i].Acq = acq
+	}
+	return outs
 }
 
 // runFile plays one multi-entry file through ONE provider (stream or preload) and one gun, entry after entry, and
@@ -680,6 +811,12 @@ func httpwireMain(args []string) {
 			if err := json.Unmarshal([]byte(ln), &cs); err != nil {
 				panic(err)
 			}
+			if strings.Contains(string(cs.C), `"rounds"`) {
+				for _, o := range e.runReuse(cs) {
+					w.Emit(o)
+				}
+				continue
+			}
 			if strings.Contains(string(cs.C), `"entries"`) {
 				for _, o := range e.runFile(cs) {
 					w.Emit(o)
@@ -713,7 +850,8 @@ type hwConnEv struct {
 	OK         bool     `json:"ok"`                 // Shoot / Req: the exchange ended with a complete answer (sample proto 200, net 0)
 	Insts      []string `json:"insts,omitempty"`    // Run: the instances
 	Opts       string   `json:"opts,omitempty"`     // Run: non-default client options of the gun
-	GapMs      int      `json:"gap_ms,omitempty"`   // Run: scripted idle gap between the shots of an instance
+	GapMs      int      `json:"gap_ms"`             // Run: scripted idle gap between the shots of an instance
+	IdleMs     int      `json:"idle_ms"`            // Run: the idle-conn-timeout the run configured (0: default)
 	Gun        string   `json:"gun,omitempty"`      // Run / End: http | connect
 	ConnectSSL bool     `json:"cssl"`               // Run / End: connect-ssl
 	Shared     int      `json:"shared"`             // Run: shared-client.client-number (0: per-instance clients)
@@ -760,26 +898,35 @@ type hwConnRun struct {
 	opts    map[string]interface{} // client options of the gun set to distinctive non-default values
 	optNote string
 	gap     time.Duration // every instance idles at least this long between two shots
+	idleMs  int           // the idle-conn-timeout the options set, in ms (0: not set)
 	connect bool          // connect gun through an in-process CONNECT proxy in front of the target
 	cssl    bool          // ... option connect-ssl
 	shared  int           // shared-client.client-number (0: per-instance clients)
 	serial  bool          // the instances take turns: at most one exchange in flight
 }
 
-// hwClientOpts: every documented transport / dialer option of the http gun away from its default.  The two that
-// matter for connection reuse are far apart: response-header-timeout is small, idle-conn-timeout is minutes.
-const hwRHT = 150 * time.Millisecond
+// hwSink receives the log lines of a connection run (the output file, or a buffer when runs execute in parallel).
+type hwSink interface{ Emit(v interface{}) }
 
-func hwClientOpts() map[string]interface{} {
+type hwBuf struct{ lines []interface{} }
+
+func (b *hwBuf) Emit(v interface{}) { b.lines = append(b.lines, v) }
+
+// hwClientOpts: every documented transport / dialer option of the http gun away from its default.  Everything that
+// is NOT idle-conn-timeout gets a small distinctive value (all below hwOtherMax); idle-conn-timeout is given by the run.
+const hwOtherMax = 450 * time.Millisecond
+
+func hwClientOpts(idle string) (map[string]interface{}, string) {
 	return map[string]interface{}{
-		"response-header-timeout": hwRHT.String(),
-		"idle-conn-timeout":       "10m",
-		"tls-handshake-timeout":   "90s",
-		"expect-continue-timeout": "3s",
-		"max-idle-conns":          7,
-		"max-idle-conns-per-host": 3,
-		"dial":                    map[string]interface{}{"timeout": "70s", "keep-alive": "31s", "fallback-delay": "250ms", "dual-stack": false},
-	}
+			"response-header-timeout": "150ms",
+			"expect-continue-timeout": "200ms",
+			"tls-handshake-timeout":   "400ms",
+			"idle-conn-timeout":       idle,
+			"max-idle-conns":          7,
+			"max-idle-conns-per-host": 3,
+			"dial":                    map[string]interface{}{"timeout": "450ms", "keep-alive": "300ms", "fallback-delay": "100ms", "dual-stack": false},
+		}, "idle-conn-timeout=" + idle + " response-header-timeout=150ms expect-continue-timeout=200ms tls-handshake-timeout=400ms " +
+			"dial.timeout=450ms dial.keep-alive=300ms dial.fallback-delay=100ms max-idle-conns=7 max-idle-conns-per-host=3"
 }
 
 func hwConnMain(w *vt.Writer, maxN, reqs int) {
@@ -793,23 +940,49 @@ func hwConnMain(w *vt.Writer, maxN, reqs int) {
 			}
 		}
 	}
-	// keep-alive on, non-default client options, with and without idle gaps longer than response-header-timeout
-	// (and far shorter than idle-conn-timeout): the instance must stay on its one connection
+	// Keep-alive on, every documented client option away from its default.  (a) idle-conn-timeout huge, every OTHER
+	// timeout small, idle gaps of 0 and of 3 x the largest other timeout: the instance must stay on its one connection;
+	// (b) the converse: idle-conn-timeout small, gaps longer than it: every shot on a connection of its own (the option
+	// is wired to the right field).  The runs sleep, so they execute in parallel and are logged in run order.
+	type job struct {
+		run int
+		cr  hwConnRun
+		buf *hwBuf
+	}
+	jobs := []job{}
+	gap := 3 * hwOtherMax
+	add := func(ssl bool, n int, idle string, idleMs int, g time.Duration) {
+		run++
+		o, note := hwClientOpts(idle)
+		jobs = append(jobs, job{run: run, buf: &hwBuf{}, cr: hwConnRun{ssl: ssl, ka: true, n: n, r: 3, opts: o, optNote: note, gap: g, idleMs: idleMs}})
+	}
 	for _, ssl := range []bool{false, true} {
-		for _, gap := range []time.Duration{0, 4 * hwRHT} {
-			for n := 1; n <= 2; n++ {
-				run++
-				hwConnOne(w, run, hwConnRun{ssl: ssl, ka: true, n: n, r: 3 + (seed+run)%2, opts: hwClientOpts(),
-					optNote: "response-header-timeout=150ms idle-conn-timeout=10m dial.timeout=70s dial.keep-alive=31s tls-handshake-timeout=90s expect-continue-timeout=3s max-idle-conns=7 max-idle-conns-per-host=3",
-					gap:     gap})
-			}
+		add(ssl, 2, "10m", 600000, 0)
+		for n := 1; n <= 2; n++ {
+			add(ssl, n, "10m", 600000, gap)
+		}
+	}
+	add(false, 2, "200ms", 200, gap)
+	add(true, 1, "200ms", 200, gap)
+	var wg sync.WaitGroup
+	for i := range jobs {
+		wg.Add(1)
+		go func(j job) {
+			defer wg.Done()
+			hwConnOne(j.buf, j.run, j.cr)
+		}(jobs[i])
+	}
+	wg.Wait()
+	for _, j := range jobs {
+		for _, ln := range j.buf.lines {
+			w.Emit(ln)
 		}
 	}
 	hwConnMore(w, run)
 }
 
 // hwConnMore: connect-gun runs (one tunnel per connection) and shared-client runs (instances take turns).
-func hwConnMore(w *vt.Writer, run int) int {
+func hwConnMore(w hwSink, run int) int {
 	seed := int(vt.Seed())
 	for _, ssl := range []bool{false, true} {
 		for _, cssl := range []bool{false, true} {
@@ -830,7 +1003,7 @@ func hwConnMore(w *vt.Writer, run int) int {
 	return run
 }
 
-func hwConnOne(w *vt.Writer, run int, cr hwConnRun) {
+func hwConnOne(w hwSink, run int, cr hwConnRun) {
 	fs := hwImport()
 	log := zap.NewNop()
 	ssl, ka, n, r := cr.ssl, cr.ka, cr.n, cr.r
@@ -926,11 +1099,16 @@ func hwConnOne(w *vt.Writer, run int, cr hwConnRun) {
 				}
 				tgt.Close()
 				_ = fs.Remove(path)
-				w.Emit(hwConnEv{Ev: "Run", Run: run, N: n, R: r, KeepAlive: ka, SSL: ssl, Insts: insts, Opts: cr.optNote, GapMs: int(cr.gap / time.Millisecond),
+				w.Emit(hwConnEv{Ev: "Run", Run: run, N: n, R: r, KeepAlive: ka, SSL: ssl, Insts: insts, Opts: cr.optNote, GapMs: int(cr.gap / time.Millisecond), IdleMs: cr.idleMs,
 					Gun: map[bool]string{false: "http", true: "connect"}[cr.connect], ConnectSSL: cr.cssl, Shared: cr.shared, Serial: cr.serial})
 				sort.SliceStable(shots, func(a, b int) bool { return shots[a].Inst < shots[b].Inst })
+				idx := map[string]int{}
+				for k, name := range insts {
+					idx[name] = k
+				}
 				for _, s := range shots {
 					s.Run = run
+					s.Idx = idx[s.Inst]
 					w.Emit(s)
 				}
 				by := map[string]string{}
@@ -938,10 +1116,6 @@ func hwConnOne(w *vt.Writer, run int, cr hwConnRun) {
 				for _, s := range shots {
 					by[s.URI] = s.Inst
 					okBy[s.URI] = s.OK
-				}
-				idx := map[string]int{}
-				for k, name := range insts {
-					idx[name] = k
 				}
 				for _, ev := range evs {
 					o := hwConnEv{Ev: ev.Ev, Run: run, Conn: ev.Conn, State: ev.State, URI: ev.URI}
